@@ -8,6 +8,16 @@ def classify(w):
     prev = labels[:-1]
     transits_before = any(x in ("transits_1", "transits_3", "transits_1_nodepot") for x in prev) and "transits_0" not in prev
     zo_before = any(x in ("abs_zo", "abs_seq") for x in prev) and not any(x in ("abs_fo", "abs_inst") for x in prev[max(i for i, x in enumerate(prev) if x in ("abs_zo", "abs_seq")):])
+    # a model that combines zero-order / sequential absorption with transit compartments (set_transit_compartments accepted the
+    # excluded combination): later requests for first-order absorption or for no transits go wrong
+    zi = [i for i, x in enumerate(prev) if x in ("abs_zo", "abs_seq")]
+    if last in ("abs_fo", "transits_0") and zi:
+        after = prev[zi[-1] + 1:]
+        if any(x in ("transits_1", "transits_3") for x in after) and not any(x in ("abs_fo", "abs_inst", "transits_0") for x in after) and (
+                what.startswith("detectability: after abs_fo the absorption detector reports") or
+                what.startswith("frame: abs_fo changed transits from") or
+                what.startswith("frame: transits_0 changed absorption from")):
+            return "requests_on_zero_order_absorption_with_transits_go_wrong"
     if last in ("transits_1", "transits_3", "transits_1_nodepot") and zo_before:
         return "transits_requested_on_zero_order_absorption"
     if last in ("abs_zo", "abs_seq") and transits_before:
